@@ -425,11 +425,16 @@ func (lm *levelManager) canRemoveWalSegment(id uint32) bool {
 		return true
 	}
 	ptrs := lm.manifestMgr.RaftPointerSnapshot()
+	// A group whose log was never truncated has no SegmentIndex yet: every raft record it
+	// ever wrote is still part of its live log, however old the segment holding it.
+	untruncated := false
 	for _, ptr := range ptrs {
 		if ptr.SegmentIndex > 0 {
 			if id >= uint32(ptr.SegmentIndex) {
 				return false
 			}
+		} else if ptr.Segment > 0 {
+			untruncated = true
 		}
 		if ptr.Segment == 0 {
 			continue
@@ -442,6 +447,9 @@ func (lm *levelManager) canRemoveWalSegment(id uint32) bool {
 		metrics := lm.lsm.wal.SegmentRecordMetrics(id)
 		if metrics.RaftRecords() > 0 {
 			log.Printf("[wal] segment %d retains raft records during GC eligibility (raft_entries=%d raft_states=%d raft_snapshots=%d)", id, metrics.RaftEntries, metrics.RaftStates, metrics.RaftSnapshots)
+			if untruncated {
+				return false
+			}
 		}
 	}
 	return true
